@@ -22,6 +22,7 @@ Extraction "model.ml"
   judge_whole judge_prefix json_family looks_like_obj_or_arr
   text_det bin_byte_impl text_spec has_bom no_binary binary_byte text_id binary_path
   c19_forward c19_converse no_marker has_apk_marker ooxml_expected any_with_prefix
+  before_tar_spec
   tar_det tar_parse_octal usum ssum tar_header_ok gpkg_name root_kids id_of_var
   zc skip_files crx_det match_ole_clsid matroska
   lookup insert_first flatten height
